@@ -89,8 +89,3 @@ func runReplay(path string) int {
 	fmt.Printf("replay of %s did not reproduce the violation on the current tree\n", abs)
 	return 0
 }
-
-func runSelftest(args []string) int {
-	fmt.Fprintln(os.Stderr, "selftest: not built yet")
-	return 2
-}
